@@ -80,8 +80,12 @@ def func_ast(fn):
     return node
 
 
+LINES_SEEN = {}  # (file, absolute line) of every repository statement executed symbolically
+
+
 class Frame:
-    __slots__ = ("fn", "locals", "globals", "cells", "parent", "exc", "klass", "self_name")
+    __slots__ = ("fn", "locals", "globals", "cells", "parent", "exc", "klass", "self_name",
+                 "file", "base")
 
     def __init__(self, fn, locs, globs, cells=None, parent=None):
         self.fn = fn
@@ -90,6 +94,16 @@ class Frame:
         self.cells = cells or {}
         self.parent = parent
         self.exc = None
+        code = getattr(fn, "__code__", None)
+        if code is not None:
+            # statement line numbers are relative to the function's own source snippet
+            self.file, self.base = code.co_filename, code.co_firstlineno - 1
+            if "/mysensors/" not in self.file or "/site-packages/" in self.file:
+                self.file = None
+        elif parent is not None:
+            self.file, self.base = parent.file, parent.base
+        else:
+            self.file, self.base = None, 0
 
     def lookup(self, name):
         f = self
@@ -440,6 +454,8 @@ class Interp:
             self.exec(s, f)
 
     def exec(self, s, f):
+        if f.file is not None:
+            LINES_SEEN[(f.file, f.base + s.lineno)] = 1
         m = getattr(self, "s_" + type(s).__name__, None)
         if m is None:
             raise Unsupported(f"statement {type(s).__name__}")
